@@ -14,7 +14,6 @@ import (
 	"strconv"
 	"strings"
 	"sync"
-	"sync/atomic"
 	"time"
 )
 
@@ -217,15 +216,20 @@ func (db *DB) Put(key []byte, value []byte) error {
 	logRecord.Key = key
 	logRecord.Value = append(logRecord.Value, value...)
 
+	// 追加日志记录与更新索引必须处于同一临界区内,
+	// 否则并发写入同一 key 时索引的更新顺序可能与日志的追加顺序不一致
+	db.mu.Lock()
+	defer db.mu.Unlock()
+
 	// 将日志记录追加到当前活跃文件
-	pos, err := db.appendLogRecordWithLock(logRecord)
+	pos, err := db.appendLogRecord(logRecord)
 	if err != nil {
 		return err
 	}
 
 	// 更新索引, 并维护无效数据量
 	if oldPos := db.index.Put(key, pos); oldPos != nil {
-		atomic.AddInt64(&db.reclaimSize, int64(oldPos.Size))
+		db.reclaimSize += int64(oldPos.Size)
 	}
 
 	return nil
@@ -256,6 +260,11 @@ func (db *DB) Delete(key []byte) error {
 		return ErrKeyIsEmpty
 	}
 
+	// 存在性检查、追加墓碑值与更新索引必须处于同一临界区内,
+	// 否则并发删除同一 key 时后到的删除会错误地返回索引更新失败
+	db.mu.Lock()
+	defer db.mu.Unlock()
+
 	if pos := db.index.Get(key); pos == nil {
 		return nil
 	}
@@ -267,17 +276,17 @@ func (db *DB) Delete(key []byte) error {
 	logRecord.Key = key
 	logRecord.Type = datafile.LogRecordDeleted
 
-	pos, err := db.appendLogRecordWithLock(logRecord)
+	pos, err := db.appendLogRecord(logRecord)
 	if err != nil {
 		return err
 	}
 	// 墓碑值本身可视为无效数据
-	atomic.AddInt64(&db.reclaimSize, int64(pos.Size))
+	db.reclaimSize += int64(pos.Size)
 
 	// 更新索引信息
 	oldPos := db.index.Delete(key)
 	if oldPos != nil {
-		atomic.AddInt64(&db.reclaimSize, int64(oldPos.Size))
+		db.reclaimSize += int64(oldPos.Size)
 	} else {
 		return ErrIndexUpdateFailed
 	}
@@ -373,13 +382,6 @@ func (db *DB) Sync() error {
 
 	// 仅持久化当前活跃文件
 	return db.activeFile.Sync()
-}
-
-// 将日志记录追加到当前活跃文件, 加锁
-func (db *DB) appendLogRecordWithLock(logRecord *datafile.LogRecord) (*datafile.DataPos, error) {
-	db.mu.Lock()
-	defer db.mu.Unlock()
-	return db.appendLogRecord(logRecord)
 }
 
 // 将日志记录追加到当前活跃文件
